@@ -206,6 +206,8 @@ pub enum AOp {
     Resize(usize),
     Close,
     RetainFalse,
+    /// retain whose predicate parks (pseudo point "pred:first") while the pool's lock is held
+    RetainGate { keep: bool },
 }
 
 #[derive(Clone, Copy, Debug, PartialEq, Eq)]
@@ -270,6 +272,10 @@ pub fn a_ops(s: &State) -> Vec<AOp> {
         AOp::Close,
         AOp::RetainFalse,
     ];
+    if s.idle > 0 {
+        v.push(AOp::RetainGate { keep: true });
+        v.push(AOp::RetainGate { keep: false });
+    }
     if s.max > 1 {
         v.push(AOp::Resize(s.max - 1));
     }
@@ -329,6 +335,9 @@ enum ARes {
 fn retain(pool: &TPool, sh: &Arc<Sh>, keep: bool) -> Vec<TObj> {
     let sh2 = sh.clone();
     let r = pool.retain(move |o, _| {
+        if sh2.chaos.load(Ordering::Relaxed) {
+            chaos_delay();
+        }
         if !keep {
             sh2.externalise(o.id);
         }
@@ -439,6 +448,21 @@ fn run_sweep_inner(prop: &'static str, sc: &Scenario, ctl: &Arc<Ctl>, record_onl
                     ARes::Nothing
                 }
                 AOp::RetainFalse => ARes::Removed(retain(&pool, &sh, false)),
+                AOp::RetainGate { keep } => {
+                    let sh2 = sh.clone();
+                    let mut first = true;
+                    let r = pool.retain(move |o, _| {
+                        if first {
+                            first = false;
+                            pseudo_point("pred:first");
+                        }
+                        if !keep {
+                            sh2.externalise(o.id);
+                        }
+                        keep
+                    });
+                    ARes::Removed(r.removed)
+                }
             }));
             leave();
             done.store(true, Ordering::SeqCst);
@@ -473,7 +497,8 @@ fn run_sweep_inner(prop: &'static str, sc: &Scenario, ctl: &Arc<Ctl>, record_onl
     let mut externals: Vec<TObj> = Vec::new();
     let mut b_res = String::new();
     if !record_only {
-        let r = catch_unwind(AssertUnwindSafe(|| match sc.b {
+        let in_pred = reached && sc.point.starts_with("pred:");
+        let mut run_b = || catch_unwind(AssertUnwindSafe(|| match sc.b {
             BOp::GetNbHold | BOp::GetNbReturn => match get_nb(&pool) {
                 Ok(o) => {
                     let h = sh.holders.fetch_add(1, Ordering::SeqCst) + 1;
@@ -518,6 +543,11 @@ fn run_sweep_inner(prop: &'static str, sc: &Scenario, ctl: &Arc<Ctl>, record_onl
             }
             BOp::Close => {
                 pool.close();
+                // once close() has returned the pool keeps no idle objects, whatever else is in flight
+                let s = pool.status();
+                if s.available != 0 || s.max_size != 0 || !pool.is_closed() {
+                    sh.viol(&["C06"], "close_returned_early", format!("close() returned but the pool still reports {:?} (is_closed={})", s, pool.is_closed()));
+                }
                 "closed".into()
             }
             BOp::Status => format!("{:?}", pool.status()),
@@ -540,6 +570,32 @@ fn run_sweep_inner(prop: &'static str, sc: &Scenario, ctl: &Arc<Ctl>, record_onl
                 format!("{:?}", s)
             }
         }));
+        let r = if in_pred {
+            // A sits inside its predicate and (in correct code) holds the pool's lock: B may have to
+            // wait for it. Run B on a helper thread; if it does not finish, let A go first.
+            let bdone = AtomicBool::new(false);
+            std::thread::scope(|s| {
+                let bdone = &bdone;
+                let h = s.spawn(move || {
+                    enter(ctl, ROLE_CTRL);
+                    let r = run_b();
+                    leave();
+                    bdone.store(true, Ordering::SeqCst);
+                    r
+                });
+                let t0 = std::time::Instant::now();
+                while !bdone.load(Ordering::SeqCst) && t0.elapsed() < Duration::from_millis(120) {
+                    std::thread::sleep(Duration::from_micros(200));
+                }
+                if bdone.load(Ordering::SeqCst) {
+                    sh.callbacks.fetch_add(1, Ordering::Relaxed);
+                }
+                ctl.latch.release();
+                h.join().unwrap_or_else(|_| Ok("helper thread died".into()))
+            })
+        } else {
+            run_b()
+        };
         match r {
             Ok(s) => b_res = s,
             Err(p) => {
@@ -635,7 +691,13 @@ fn run_sweep_inner(prop: &'static str, sc: &Scenario, ctl: &Arc<Ctl>, record_onl
         ARes::Removed(v) => externals.extend(v),
     }
     // ---- end-state oracles, at rest
-    let end_state = end_state_checks(&sh, &pool, &mut log, &[sc.a_max(), sc.b_max(), Some(st.max)]);
+    let end_state = match catch_unwind(AssertUnwindSafe(|| end_state_checks(&sh, &pool, &mut log, &[sc.a_max(), sc.b_max(), Some(st.max)]))) {
+        Ok(h) => h,
+        Err(p) => {
+            sh.viol(&["C02", "C06", "*"], "later_call_panicked", format!("a pool call at rest panicked (poisoned by an earlier panic?): {}", panic_message(&*p)));
+            0
+        }
+    };
     drop(externals);
     drop(pool);
     let constructed = sh.constructed.load(Ordering::SeqCst);
@@ -909,7 +971,13 @@ pub fn run_chaos(prop: &'static str, cfg: ChaosCfg, seed: u64) -> ChaosOut {
     }
     let mut log = Vec::new();
     let cands: Vec<Option<usize>> = resizes.lock().unwrap().iter().map(|x| Some(*x)).collect();
-    let end_state = end_state_checks(&sh, &pool, &mut log, &cands);
+    let end_state = match catch_unwind(AssertUnwindSafe(|| end_state_checks(&sh, &pool, &mut log, &cands))) {
+        Ok(h) => h,
+        Err(p) => {
+            sh.viol(&["C02", "C06", "*"], "later_call_panicked", format!("a pool call at rest panicked (poisoned by an earlier panic?): {}", panic_message(&*p)));
+            0
+        }
+    };
     drop(pool);
     let constructed = sh.constructed.load(Ordering::SeqCst);
     let destructed = sh.destructed.load(Ordering::SeqCst);
